@@ -96,6 +96,12 @@ def _c16_units():
                        functions=["fontir::feature_variations::Rank::first_bit_is_set", "fontir::feature_variations::Rank::is_all_zeros"], klass="bounded", domain=bound,
                        pre="a arbitrary", post="first_bit_is_set <=> val odd; is_all_zeros <=> val == 0",
                        kind="obligation", tiers=tiers, timeout_s=600))
+    for la, lb in [(1, 1), (2, 2), (1, 2), (2, 1), (3, 2), (0, 1)]:
+        us.append(dict(obligation=f"c16_rank_sort_key_orders_by_rule_count_{la}_{lb}", engine="kani", crate="fontir", src=src,
+                       functions=["fontir::feature_variations::Rank::count_ones (the overlay's sort key, used as Reverse(count_ones); the anchor pins the sort_by_key line)"], klass="bounded",
+                       domain=f"a has exactly {la} stored words, b exactly {lb}; contents arbitrary",
+                       pre="a, b arbitrary ranks", post="key(a) < key(b) <=> popcount(val a) > popcount(val b): boxes with more contributing rules sort first (first matching box wins)",
+                       kind="obligation", tiers=["quick", "thorough"], timeout_s=600))
     us.append(dict(obligation="c16_rank_new_is_power_of_two", engine="kani", crate="fontir", src=src,
                    functions=["fontir::feature_variations::Rank::new"], klass="bounded", domain="rule index i < 192 (1..3 words)",
                    pre="i < 192", post="val(Rank::new(i)) == 2^i", kind="obligation", tiers=["quick", "thorough"], timeout_s=300))
@@ -206,8 +212,7 @@ UNITS["C13"] = [
     _k("c13_from_keyword_never_eof", "fea-rs", "fea-rs/src/parse/lexer/lexeme.rs", ["fea_rs::parse::lexer::lexeme::Kind::from_keyword"], "bounded",
        "every byte word of length <= 26 (longest keyword has 25 bytes)", "|word| <= 26", "result is never Some(Eof/Tombstone/Ident/Whitespace); empty word => None  (the contract the Verus proof assumes for this external_body function)", timeout_s=900),
     _k("c13_lexer_cover", "fea-rs", "fea-rs/src/parse/lexer.rs", [], "complete", "", "", "identifier, non-ASCII character, number reachable in the companion's input generator", kind="cover", timeout_s=1800, on_demand=True),
-    _k("c13_parser_forwards_every_lexeme_inputs_up_to_2_bytes", "fea-rs", "fea-rs/src/token_tree.rs",
-       ["fea_rs::parse::parser::Parser::{new,advance,eat_raw,eat_trivia,do_bump,at_eof}", "fea_rs::token_tree::AstSink::{token,start_node,finish_node,finish}"], "bounded",
+], "bounded",
        "every valid UTF-8 input of <= 2 bytes; the parser is driven by eat_raw until Eof (no grammar)", "valid UTF-8, |input| <= 2",
        "the sink has consumed exactly |input| bytes (every lexeme, trivia included, forwarded exactly once); token texts of the tree add up to |input|; at most one eat_raw per byte",
        tiers=("thorough",), timeout_s=3600),
@@ -222,7 +227,6 @@ KANI_TRUSTED = [
     "alloc::fmt::format is stubbed to return an empty String in harnesses that reach format! (error messages are never inspected); confirmed on every run from Kani's '- Stub:' line",
     "dependencies reached by a harness (write-fonts, font-types, kurbo, ordered-float, smallvec) are verified *through* (CBMC executes their real code); they carry no contracts of their own",
     "glue: the job bodies (impl Work ... exec) that call these kernels take a Context and are not under any contract",
-    "std::hash::RandomState::new is stubbed to fixed keys ONLY in the two scalar_at harnesses, because VariationRegion carries a HashSet field that scalar_at never reads and whose real constructor reaches a futex syscall Kani cannot model",
     "Kani proves no termination; loops are unrolled to the stated bound with unwinding assertions on",
 ]
 
@@ -232,13 +236,38 @@ VERUS_TRUSTED = [
 
 # per-property assumptions (what the contracts do NOT establish)
 ASSUME = {
+    "C07": [
+        "std::hash::RandomState::new is stubbed to fixed keys ONLY in the two scalar_at harnesses, because VariationRegion carries a HashSet field that scalar_at never reads and whose real constructor reaches a futex syscall Kani cannot model (stub confirmed from Kani's output on every run)",
+        "not under contract: regions_for, master_influence (writes tent min/max directly, bypassing Tent::new), delta_weights, deltas_with_rounding, interpolate_from_deltas, LocationSortingHat - i.e. master reproduction, scalar range in n-D and order independence",
+        "scalar_at: only the exact cases (peak, outside, missing axis) on ONE axis; 0 <= scalar <= 1 inside a tent is a property of an f64 quotient and is not decided",
+    ],
+    "C08": [
+        "paper lemma (not machine-checked): both normalisation routes are piecewise linear in the user coordinate with breakpoints at the mapping nodes, so exact agreement at the nodes implies agreement between them up to f64 interpolation error and F2Dot14 quantisation",
+        "not under contract: CoordConverter::{new,default_normalization,unmapped}, fontbe::avar::to_segment_map (attempted, > 25 min), generate_fvar (takes StaticMetadata), named-instance coordinates, the front ends that build Axis",
+    ],
+    "C13": [
+        "assumed, not proved: Parser forwards every lexeme exactly once to AstSink::token in the presence of the grammar (the thorough tier checks this for the bare Parser+AstSink on inputs <= 2 bytes); AstSink/TreeBuilder/rewrite re-emit every buffered child; grammar loops go through Parser::eat* or progress-checked repeat; validation does not panic; include resolution honours MAX_INCLUDE_DEPTH",
+        "the str -> [u8] rewrite drops the UTF-8 type invariant; it returns as the explicit hypothesis utf8_shape of clause T4 only",
+        "Kind::from_keyword is external_body in the Verus unit; its assumed contract (never Eof) is checked by the bounded Kani harness c13_from_keyword_never_eof on the real function",
+        "known, outside every contract here: `include(` at end of input panics in typed.rs; parser-level diagnostics other than err_before_ws/warn_before_ws are not under contract",
+    ],
+    "C16": [
+        "not under contract: NBox::overlay_onto (HashSet inside: > 10 min even against the empty box), overlay_feature_variations driver (IndexMap), merge_same_*, condition normalisation in fontbe, FeatureVariation record order in fea-rs",
+        "Rank obligations are bounded by word count (quick: <= 3 words = 192 rules; thorough: <= 5 words = 320 rules) with arbitrary word contents",
+    ],
+    "C17": [
+        "not under contract: update_composite_limits (HashMap + retain closure; unchecked u16 additions), composite and head bounding boxes (kurbo), x_avg_char_width, first/last char index, add_unicode_range_bits itself (HashSet<u32>: attempted, > 40 min) and code-page bits, max context - all read a Context or are hash-set code",
+        "MetricsBuilder::build is bounded by glyph count (quick <= 5, thorough <= 8)",
+    ],
     "C19": [
         "not under contract: advances (width.ot_round() into u16 in MetricAndLimitWork::exec), kerning/anchor values (resolve_variable_metric), GlyphId16::new(gid as u16) in make_variations, point counts `as u16` in MaxBuilder::update, update_composite_limits' unchecked u16 additions (HashMap code, out of CBMC's reach)",
         "upstream guarantee assumed as precondition for the 2x2 clause: |a|,|b|,|c|,|d| <= 2 (has_overflowing_2x2_transforms + decomposition in fontir)",
     ],
 }
 
+_EXPL = "Each sample is one proof obligation: a Kani harness in a child module appended to the real source file (or a Verus-verified function of the mechanically extracted lexer) stating pre => call the real function => post; `class: complete` means full input domain (counted in obligations/discharged), `class: bounded` means an input-size bound (listed under coverage.bounded, never counted as proved)."
 EXPLAIN = {
+    "C07": _EXPL, "C08": _EXPL, "C13": _EXPL, "C16": _EXPL, "C17": _EXPL,
     "C19": "Each sample is one proof obligation: a Kani harness in a child module appended to the real source file, stating pre => call the real function => post over the full input domain; CBMC discharges it bit-precisely including every implicit overflow/cast check.",
 }
 
